@@ -81,6 +81,17 @@ fn subject_from_bytes(name: &str, bytes: Vec<u8>, desc: Value, max_endpoints: us
     if let Some(m) = full.keys().last() {
         structural.extend([m - 1, *m, m + 1]);
     }
+    // distances of exactly 2^32 (and around) between an entry and a range bound
+    for e in p.tile_entries.iter().take(2).chain(p.tile_entries.iter().rev().take(1)) {
+        for d in [1u64 << 32, (1u64 << 32) + u64::from(e.run_length) - 1, (1u64 << 32) + u64::from(e.run_length)] {
+            if let Some(x) = e.tile_id.checked_add(d) {
+                structural.push(x);
+            }
+            if e.tile_id >= d {
+                structural.push(e.tile_id - d);
+            }
+        }
+    }
     // keep the endpoint set bounded for big archives: leaf boundaries first, then run boundaries spread evenly
     let budget = max_endpoints.saturating_sub(v.len());
     let mut take = |src: &Vec<u64>, budget: usize, v: &mut BTreeSet<u64>| {
@@ -116,11 +127,11 @@ pub fn subjects(thorough: bool) -> Vec<Subject> {
     out.push(subject_from_bytes("lib-three-leaves-none", write_lib(&l, Api::Sync).unwrap(), json!({"lib":"window","family":0,"n":9000,"comp":"none"}), if thorough { 30 } else { 18 }));
     // foreign
     let specs = [
-        Spec { order: 0, gap: 0, root_gap: false, shape: Shape::Leaves, run: 3, offs: Offs::Contiguous, n: 7, meta: 1, comp: 1, base: 0, hv: 0 },
-        Spec { order: 3, gap: 13, root_gap: true, shape: Shape::Depth3, run: 2, offs: Offs::BackRefs, n: 7, meta: 2, comp: 2, base: 1, hv: 1 },
-        Spec { order: 5, gap: 1, root_gap: false, shape: Shape::Mixed, run: 3, offs: Offs::Overlapping, n: 7, meta: 0, comp: 4, base: 5, hv: 2 },
-        Spec { order: 1, gap: 0, root_gap: false, shape: Shape::Depth3, run: 1, offs: Offs::Descending, n: 7, meta: 1, comp: 3, base: 1 << 40, hv: 3 },
-        Spec { order: 2, gap: 0, root_gap: false, shape: Shape::RootOnly, run: 2, offs: Offs::Contiguous, n: 3, meta: 1, comp: 1, base: 0, hv: 0 },
+        Spec { order: 0, gap: 0, root_gap: false, shape: Shape::Leaves, run: 3, offs: Offs::Contiguous, n: 7, meta: 1, comp: 1, base: 0, hv: 0, level_order: false },
+        Spec { order: 3, gap: 13, root_gap: true, shape: Shape::Depth3, run: 2, offs: Offs::BackRefs, n: 7, meta: 2, comp: 2, base: 1, hv: 1, level_order: false },
+        Spec { order: 5, gap: 1, root_gap: false, shape: Shape::Mixed, run: 3, offs: Offs::Overlapping, n: 7, meta: 0, comp: 4, base: 5, hv: 2, level_order: false },
+        Spec { order: 1, gap: 0, root_gap: false, shape: Shape::Depth3, run: 1, offs: Offs::Descending, n: 7, meta: 1, comp: 3, base: 1 << 40, hv: 3, level_order: false },
+        Spec { order: 2, gap: 0, root_gap: false, shape: Shape::RootOnly, run: 2, offs: Offs::Contiguous, n: 3, meta: 1, comp: 1, base: 0, hv: 0, level_order: false },
     ];
     for (i, s) in specs.iter().enumerate() {
         out.push(subject_from_bytes(&format!("foreign-{i}-{:?}", s.shape), foreign::build(s).bytes, s.to_json(), 40));
@@ -230,7 +241,7 @@ pub fn check_range(s: &Subject, lo: B, hi: B, max_lookups: usize) -> Vec<(String
 pub fn run(tier: &str) -> i32 {
     let rep = Report::new("C11", tier, "exploration");
     let thorough = rep.thorough();
-    rep.rule("for each of 9 archives (3 library-written incl. one with leaf directories, 6 foreign with depth 2-3, runs straddling leaf boundaries, a pointer id below its leaf's first entry): endpoint set V = {0,1,u64::MAX-1,u64::MAX, every leaf first id -1/0/+1, run starts/ends -1/0/+1, max id +-1}; ALL pairs (Included|Excluded|Unbounded)(v) x (Included|Excluded|Unbounded)(v) incl. empty and inverted ranges, through from_bytes_partially, from_reader_partially, from_async_reader_partially, util::read_directories(_async); oracle = full content (spec reader) filtered by RangeBounds::contains; non-trivial = ranges selecting a proper non-empty subset");
+    rep.rule("for each of 9 archives (3 library-written incl. one with leaf directories, 6 foreign with depth 2-3, runs straddling leaf boundaries, a pointer id below its leaf's first entry): endpoint set V = {0,1,u64::MAX-1,u64::MAX, every leaf first id -1/0/+1, run starts/ends -1/0/+1, max id +-1, entry ids +- 2^32 (+ run length)}; ALL pairs (Included|Excluded|Unbounded)(v) x (Included|Excluded|Unbounded)(v) incl. empty and inverted ranges, through from_bytes_partially, from_reader_partially, from_async_reader_partially, util::read_directories(_async); oracle = full content (spec reader) filtered by RangeBounds::contains; non-trivial = ranges selecting a proper non-empty subset");
     rep.assume("build has overflow checks on, as debug builds of users do");
     let subs = subjects(thorough);
     let mut total = 0u64;
